@@ -584,7 +584,11 @@ func RunFamily(c *core.Ctx, p Plan) {
 			}
 		}})
 		initKey := `{"conn":{"c1":"new","c2":"new"},"held":{"c1":[],"c2":[]},"trie":[],"links":{"c1":[],"c2":[]},"store":[],"will":{"c1":{"on":false},"c2":{"on":false}}}`
-		walks, covered, unreach := g.Walks(g.Key(initKey), 40, rng, 0.3)
+		maxWalks := 6000
+		if c.Quick() {
+			maxWalks = 250
+		}
+		walks, covered, unreach := g.WalksN(g.Key(initKey), 40, rng, 0.3, maxWalks)
 		if unreach > 0 || covered == 0 {
 			core.Fatalf("session graph (%s): %d edges unreachable from init, %d covered (state key mismatch?)", p.Fam, unreach, covered)
 		}
